@@ -43,6 +43,16 @@ instance : SMul Float FV := ⟨fun c v => v.map (fun a => c * a)⟩
 /-- a broadcastable scalar zero (Python `0.0` / `snp.zeros` of any shape) -/
 instance : Zero FV := ⟨⟨#[0.0]⟩⟩
 def hadamard (x y : FV) : FV := zipB (· * ·) x y
+/-- complex product / conjugate on interleaved (re, im) pairs -/
+def cmul (x y : FV) : FV :=
+  ⟨Array.ofFn (n := x.size) (fun i =>
+    let k := i.val / 2
+    let xr := x.get (2 * k)
+    let xi := x.get (2 * k + 1)
+    let yr := y.get (2 * k)
+    let yi := y.get (2 * k + 1)
+    if i.val % 2 == 0 then xr * yr - xi * yi else xr * yi + xi * yr)⟩
+def cconj (x : FV) : FV := ⟨Array.ofFn (n := x.size) (fun i => if i.val % 2 == 0 then x.get i.val else -(x.get i.val))⟩
 def sumSq (v : FV) : Float := v.a.foldl (fun acc a => acc + a * a) 0.0
 def norm (v : FV) : Float := Float.sqrt v.sumSq
 def dot (x y : FV) : Float := (hadamard x y).a.foldl (· + ·) 0.0
@@ -165,16 +175,20 @@ def gOp? (j : Json) : Option Op := do
   let q ← fOptFV? j "q"
   let P ← fOptMat? j "P"
   let b ← fOptFV? j "b"
+  -- complex data: element-wise products are complex products on interleaved pairs, `(J(x))ᴴ` conjugates
+  let cplx := (fBool? j "cplx").getD false
+  let mul : FV → FV → FV := if cplx then FV.cmul else FV.hadamard
+  let conj : FV → FV := if cplx then FV.cconj else id
   match q, P with
   | some q, some P =>
     some { app := fun x =>
              let px := P.mulVec x
-             let y := M.mulVec x + FV.hadamard q (FV.hadamard px px)
+             let y := M.mulVec x + mul q (mul px px)
              match b with
              | some b => y + b
              | none => y,
-           jadj := fun x w => M.tMulVec w + P.tMulVec ((2.0 : Float) • FV.hadamard q (FV.hadamard (P.mulVec x) w)),
-           jvp := fun x t => M.mulVec t + (2.0 : Float) • FV.hadamard q (FV.hadamard (P.mulVec x) (P.mulVec t)),
+           jadj := fun x w => M.tMulVec w + P.tMulVec (mul (conj ((2.0 : Float) • mul q (P.mulVec x))) w),
+           jvp := fun x t => M.mulVec t + (2.0 : Float) • mul q (mul (P.mulVec x) (P.mulVec t)),
            M := M, linear := false }
   | _, _ =>
     some { app := fun x => match b with
